@@ -373,9 +373,17 @@ fn c04() -> Property {
                 cases_per_seed: 1,
                 note: "two typed public values (12 x 9 type pairs: symbol, symbol-ref, lazy value, uuid, timestamp, decimals, arrays, strings, binaries, numbers) decoded one after the other from a valid encoding, through both readers: neither panics, both come out as they do alone",
             },
+            Variant {
+                name: "nesting-on-a-scaled-stack",
+                weight: 1,
+                make: || Box::pin(scen::codec::run_c04_nesting_small_stack()),
+                max_steps: 3_000_000,
+                cases_per_seed: 1,
+                note: "lists, maps (nested in value and in key position), arrays, described values and mixtures nested 20-600 deep around the decoder's depth limit, decoded as every public type on a thread whose stack is scaled to this optimised build so that the deepest nesting the unchanged tree accepts takes the share of it that it takes of a 2 MiB stack in an unoptimised build",
+            },
         ],
-        quick_runs: 6 * 700 * 20,
-        thorough_runs: 6 * 700 * 2000,
+        quick_runs: 8 * 700 * 15,
+        thorough_runs: 8 * 700 * 1500,
         rule: "corruption variant: one run = one generated encoding x 1-3 structure-aware corruptions (+ optional cut) x seeded chunking and interrupted reads; cut variant: one run per (seed, offset 0..700); short-string variant: one run per first byte (257 runs cover all strings of length <= 2 exactly once per block); blocks of 700 run indices alternate between the variants 3:1:1; distinct = distinct event-log hash",
         assumptions: vec![
             "allocation is measured by a counting global allocator around each decode call; 'in proportion' is peak <= 160 x input length + 16 MiB (the crate caps one array at 65536 elements of 72 bytes before it has seen its body)",
